@@ -62,6 +62,16 @@ def tie(ctx):
     mod = vlib.model(exe, ["modules"], [abstract_case(m, s, a) for _, m, s, a in projs])
     mism = []
     dist = collections.Counter()
+    # the hypothesis of C12_tree_prefix (respell_okb) on every generated project, written with bare paths, for the four
+    # spellings of the project directory
+    bare = []
+    for _, m, s, a in projs:
+        pre = m[:-len("main.sy")]
+        bare.append(abstract_case("main.sy", s, {q[len(pre):]: v for q, v in a.items()}))
+    for (files, main, std, abstract), rs in zip(projs, vlib.model(exe, ["respell"], bare)):
+        dist["C12_tree_prefix: respell_okb for /p/ , bare, ./ , proj/ = " + rs.split(" ")[-1]] += 1
+        if rs != "RESPELL tttt":
+            mism.append({"case": "respell_okb is false on a generated project", "files": files, "got": rs})
     nontrivial = set()
     use_cases = []
     use_want = []
